@@ -78,16 +78,49 @@ func c20Wire(c *ctxT, sb *strings.Builder, unknowns *[]string) {
 	fmt.Fprintf(sb, "\n/-- `NewAnteHandler`: first extension option's type URL ↦ handler (`none` = a transaction without extension options) -/\ndef anteRouting : List String := %s\n", leanList(mapStr(routes, leanStr)))
 
 	// ---- app wiring ----
+	// setAnteHandler: both values are read from the application options, assigned exactly once (no rewriting of "0" or
+	// "absent" into something else) and handed unchanged to NewCheckTxFeees, whose `.Check` is the TxFeeChecker
 	wired := false
 	for _, f := range c.pkg("app") {
-		s := strings.Join(strings.Fields(c.src(f)), " ")
-		if strings.Contains(s, "TxFeeChecker: fxante.NewCheckTxFeees(BypassMinFeeMsgTypes, MaxBypassMinFeeMsgGasUsage).Check") &&
-			strings.Contains(s, "BypassMinFeeMsgTypes := cast.ToStringSlice(appOpts.Get(fxcfg.BypassMinFeeMsgTypesKey))") &&
-			strings.Contains(s, "MaxBypassMinFeeMsgGasUsage := cast.ToUint64(appOpts.Get(fxcfg.BypassMinFeeMsgMaxGasUsageKey))") {
-			wired = true
+		for _, d := range f.Decls {
+			fd, ok := d.(*ast.FuncDecl)
+			if !ok || fd.Body == nil || fd.Name.Name != "setAnteHandler" {
+				continue
+			}
+			assigns := map[string][]string{}
+			ast.Inspect(fd.Body, func(n ast.Node) bool {
+				switch x := n.(type) {
+				case *ast.AssignStmt:
+					for i, l := range x.Lhs {
+						if id, ok := l.(*ast.Ident); ok && (id.Name == "BypassMinFeeMsgTypes" || id.Name == "MaxBypassMinFeeMsgGasUsage") {
+							rhs := "?"
+							if len(x.Rhs) == len(x.Lhs) {
+								rhs = norm(x.Rhs[i])
+							}
+							assigns[id.Name] = append(assigns[id.Name], x.Tok.String()+" "+rhs)
+						}
+					}
+				case *ast.IncDecStmt:
+					if id, ok := x.X.(*ast.Ident); ok {
+						assigns[id.Name] = append(assigns[id.Name], x.Tok.String())
+					}
+				case *ast.UnaryExpr:
+					if x.Op == token.AND { // address taken: could be written through a pointer
+						if id, ok := x.X.(*ast.Ident); ok && (id.Name == "BypassMinFeeMsgTypes" || id.Name == "MaxBypassMinFeeMsgGasUsage") {
+							assigns[id.Name] = append(assigns[id.Name], "&")
+						}
+					}
+				}
+				return true
+			})
+			t, m := assigns["BypassMinFeeMsgTypes"], assigns["MaxBypassMinFeeMsgGasUsage"]
+			wired = len(t) == 1 && t[0] == ":= cast.ToStringSlice(appOpts.Get(fxcfg.BypassMinFeeMsgTypesKey))" &&
+				len(m) == 1 && m[0] == ":= cast.ToUint64(appOpts.Get(fxcfg.BypassMinFeeMsgMaxGasUsageKey))" &&
+				strings.Contains(norm(fd.Body), "TxFeeChecker: fxante.NewCheckTxFeees(BypassMinFeeMsgTypes, MaxBypassMinFeeMsgGasUsage).Check") &&
+				strings.Contains(norm(fd.Body), "app.SetAnteHandler(fxante.NewAnteHandler(anteOptions))")
 		}
 	}
-	fmt.Fprintf(sb, "\n/-- app.go: `TxFeeChecker: fxante.NewCheckTxFeees(<bypass-min-fee.msg-types>, <bypass-min-fee.msg-max-gas-usage>).Check` -/\ndef appWiresFeeChecker : Bool := %v\n", wired)
+	fmt.Fprintf(sb, "\n/-- app.go `setAnteHandler`: the exempt types and the allowance are read from the application options\n(`bypass-min-fee.msg-types`, `bypass-min-fee.msg-max-gas-usage`), assigned exactly once, and handed unchanged to\n`fxante.NewCheckTxFeees(…).Check`, the `TxFeeChecker` of the ante handler the app installs -/\ndef appWiresFeeChecker : Bool := %v\n", wired)
 
 	// ---- ValidateModuleName ----
 	re, anchored, matches := "", false, false
